@@ -108,6 +108,14 @@ func VReplayStore(task engine.SeqTask) (res engine.SeqResult) {
 						&VInstant{T: t + 1, Label: fmt.Sprintf("just-after-commit-%d", i+1), Ent: s.Ent, EntNil: s.EntNil, Rel: s.Rel})
 				}
 			}
+		case "badbatch", "badtxn":
+			// a write the store has to refuse as a whole (a null reference value in its last entity / in the part for the
+			// second dataset): nothing of it may become visible, and what it touched in memory must not leak into later writes
+			err := h.ApplyRefused(op)
+			if err != nil {
+				res.HarnessEr = err.Error()
+				return
+			}
 		case "read":
 			r := readers[op.R]
 			if r == nil {
@@ -160,6 +168,17 @@ func VReplayStore(task engine.SeqTask) (res engine.SeqResult) {
 		}
 	}
 	res.Key = h.Canon(append(append([]string{}, p.IDs...), "e4"), p.Datasets, extra)
+	if n := len(task.Hist); n > 0 {
+		var lo struct {
+			K string `json:"k"`
+		}
+		_ = json.Unmarshal(task.Hist[n-1], &lo)
+		if lo.K == "badbatch" || lo.K == "badtxn" {
+			// a refused write is meant to change nothing: the state right behind it is kept apart, or the search would
+			// never continue from there (what it leaves behind in memory is not part of the key)
+			res.Key += "|just-refused"
+		}
+	}
 	res.Viol = chk.Viol
 	res.Checks = chk.Checks
 	res.Outcome = res.Key[:8]
